@@ -37,7 +37,7 @@ OBLIGATIONS = [
         desc="Adder.modify (entries= and set_node): symbolic overwrite mode, name (incl. NFC-equivalent spellings), presence/kind/read-only-ness "
              "of the existing child, shape of old and new metadata, no-write: result == map-model add, or ExistingChildError exactly when "
              "overwrite=False and present / ONLY_FILES and a directory is present, with the contents unchanged. Selector lists of each case are in its bounds "
-             "(absent key = full range: ow 0..2, raw 0..6, a 0..4, shape 0..3, n 0..4, nm 0..6); first_time (retry flag) symbolic"),
+             "(absent key = full range: ow 0..2, raw 0..6, a 0..4, shape 0..3, n 0..4, nm 0..7, 7 = a copy of the entry's current user metadata); first_time (retry flag) symbolic"),
     chx("adder_two", "C20_h", "h_adder_two", timeout=T,
         cases={"quick": [_c("collide", raw=[0, 1, 2], a=[0, 2], k=[0]),
                          _c("only_files", raw=[1, 2], ow=[2], a=[0, 1, 2], k=[0, 1]),
@@ -54,7 +54,8 @@ OBLIGATIONS = [
                          _c("metadata", raw=[2], a=[1, 2, 3, 4])],
                "thorough": [_c("raw%d" % r, raw=[r]) for r in R7]},
         desc="MetadataSetter.modify: NoSuchChildError iff missing; else only that entry's metadata changes, per the metadata model; child kept "
-             "(diminished to read-only iff resulting no-write is true and a create_readonly_node is given)"),
+             "(diminished to read-only iff resulting no-write is true and a create_readonly_node is given); also when the requested metadata equals the current user metadata or is {}: "
+             "new contents are returned and linkmotime == now"),
     chx("move", "C20_h", "h_move", timeout=T,
         cases={"quick": [_c("readonly", ow=[0], src_raw=[1], dst_raw=[0], sa=[1], ta=[0], fail_add=F),
                          _c("cross_overwrite", where=[0], src_raw=[2], dst_raw=[1, 3], sa=[1, 2], fail_add=F, src_rdonly=F, dst_rdonly=F),
@@ -72,7 +73,7 @@ OBLIGATIONS = [
     chx("dir_ops", "C20_h", "h_dir_ops", timeout=T,
         cases={"quick": [_c("add", op=[0, 1], raw=[0, 2], a=[0, 1, 2], shape=[0], n=[0], nm=[0, 4]),
                          _c("delete", op=[2], raw=[0, 2, 4]),
-                         _c("setmd", op=[3], raw=[0, 3], a=[0, 1, 3, 4], shape=[0, 1], nm=[1, 4, 6])],
+                         _c("setmd", op=[3], raw=[0, 3], a=[0, 1, 3, 4], shape=[0, 1], nm=[1, 4, 6, 7])],
                "thorough": [_c("add_raw%d" % r, op=[0, 1], raw=[r], shape=[0, 1]) for r in (0, 1, 2, 3, 4, 6)] +
                            [_c("delete", op=[2]), _c("setmd", op=[3])]},
         desc="DirectoryNode.set_node / set_nodes / delete / set_metadata_for (real, incl. _create_readonly_node) on a fake backing file: result "
@@ -82,7 +83,8 @@ OBLIGATIONS = [
         cases={"quick": [_c("add_add", op1=[0], op2=[0], sa=[0, 2], pa=[0], raws=[1, 2], nm=[False]),
                          _c("add_setmd_delete", op1=[0], op2=[1, 2], sa=[0, 1], pa=[0], ow=[0, 2], nm=[False, True]),
                          _c("move_then", op1=[3], op2=[0, 3], sa=[1], pa=[0, 2], ow=[0, 1], raws=[1, 2], dsts=[2, 4], nm=[False]),
-                         _c("rename_then", op1=[4], op2=[2, 4], sa=[1, 2], pa=[0], ow=[0, 2], raws=[1, 2], dsts=[0, 2], nm=[False])],
+                         _c("rename_then", op1=[4], op2=[2, 4], sa=[1, 2], pa=[0], ow=[0, 2], raws=[1, 2], dsts=[0, 2], nm=[False]),
+                         _c("setmd_twice", op1=[2], op2=[2], sa=[0, 1, 2], pa=[0])],
                "thorough": [_c("op%d_op%d" % (a, b), op1=[a], op2=[b], nm=[False, True] if (a == 0 and b in (1, 2)) else [False],
                                pa=[0, 2] if 3 in (a, b) else [0], dsts=[2, 4] if 3 in (a, b) else [0, 2, 4]) for a in range(5) for b in range(5)]},
         desc="every pair of operations from {set_node, delete, set_metadata_for, move to another directory, rename within the directory} on two fake-backed real "
